@@ -142,6 +142,10 @@ def r2_charges(ctx, shifts_by_class):
             kind = getattr(v, "kind", "unk")
             if kind == "inv":
                 ctx.ok("C10.R2", m, m.node, f"{g.cfg.name}: `{t}` is invariant under {shifts}", construct=f"charge of {t}", instance=g.cfg.name)
+            elif kind == "top":
+                culprits = [a for a in sorted(g.ancestors(t)) if getattr(vals.get(a), "kind", None) == "top"][:4]
+                ctx.unknown("C10.R2", m, m.node, f"{g.cfg.name}: `{t}` goes through an operation the charge domain does not model (first such ancestors: {culprits})",
+                            construct=f"charge of {t}", instance=g.cfg.name)
             else:
                 # find the first non-invariant ancestor chain for the diagnosis
                 culprits = [a for a in sorted(g.ancestors(t)) if getattr(vals.get(a), "kind", None) == "unk"][:4]
@@ -185,10 +189,40 @@ def r3_space_shifts(ctx):
     hh = unify(L, ["?e = torch.zeros_like($0)", "?e[$k0] = 1.0", f"return torch.cat(({Q}[:, :$k0], {Q}[:, $k0 + 1:]), dim=1)"])
     in_order = hh is not None and all(hh[f"#{i}"] < hh[f"#{i + 1}"] for i in range(2))
     whats = ["e_j is the stripped basis vector", "reflection target alpha = -sign(d_j) |d|", "u = d - alpha e_j", "normalised reflection vector", "Q = I - 2 v v^T", "the column collinear to G*v is stripped"]
-    for what in whats:
-        ctx.anchor(in_order, "C10.R3", f, f.node, what, "Householder reflection e_j, alpha, u, v, Q, stripped column", construct=what)
-    for needle, what in (("$0 = $1 * $0", "velocity mapped through the (diagonal) metric"), ("$0 = $1 @ $0", "velocity mapped through the (full) metric")):
-        ctx.anchor(needle in L, "C10.R3", f, f.node, what, f"`{needle}`", construct=what)
+    # decided algebraically when the body can be evaluated over sympy tensors: every returned column is orthogonal to G @ v (and the
+    # columns are orthonormal), as polynomial identities modulo sign(x)^2 = 1 and norm(x)^2 = sum x_i^2 - whatever the way it is written
+    from ..domains.symlin import householder_obligations, SymUnsupported, Refused
+    cases = [(m, 3, k) for m in ("scalar", "diagonal") for k in (0, 1, 2)] + [("full", 2, 0), ("full", 2, 1), ("full", 3, 1)]
+    if ctx.tier == "thorough":
+        cases += [("diagonal", 4, 0), ("diagonal", 4, 3), ("full", 3, 0), ("full", 3, 2)]
+    decided = True
+    for metric, n, k in cases:
+        inst = f"{metric} metric, dimension {n}, stripped column {k}"
+        try:
+            r = householder_obligations(f.node, n, k, metric)
+        except SymUnsupported as e:
+            decided = False
+            ctx.extra.setdefault("C10.R3_symbolic_fallback", str(e)[:200])
+            break
+        except Refused as e:
+            ctx.unknown("C10.R3", f, f.node, f"{inst}: the function refuses a valid configuration ({e})", construct="orthogonality to G*v", instance=inst)
+            continue
+        if r["shape"] != (n, n - 1):
+            ctx.violation("C10.R3", f, f.node, f"{inst}: the basis has shape {r['shape']} instead of ({n}, {n - 1}): not a basis of the hyperplane orthogonal to the progression",
+                          construct="orthogonality to G*v", instance=inst)
+            continue
+        bad = [j for j, okj in enumerate(r["orthogonal"]) if not okj]
+        ctx.check(not bad, "C10.R3", f, f.node, f"{inst}: every column is orthogonal to G @ v (identity modulo sign^2 = 1, norm^2 = sum of squares)",
+                  f"{inst}: column(s) {bad} of the returned basis are not orthogonal to G @ v: the space shifts get a component along the direction of progression "
+                  "(spatial variability mimics a time shift)", construct="orthogonality to G*v", instance=inst)
+        ctx.check(bool(r["orthonormal"]), "C10.R3", f, f.node, f"{inst}: the columns are orthonormal", f"{inst}: the columns of the returned basis are not orthonormal",
+                  construct="orthonormal columns", instance=inst)
+    if not decided:
+        for what in whats:
+            ctx.anchor(in_order, "C10.R3", f, f.node, what, "Householder reflection e_j, alpha, u, v, Q, stripped column", construct=what)
+    if not decided:
+        for needle, what in (("$0 = $1 * $0", "velocity mapped through the (diagonal) metric"), ("$0 = $1 @ $0", "velocity mapped through the (full) metric")):
+            ctx.anchor(needle in L, "C10.R3", f, f.node, what, f"`{needle}`", construct=what)
 
 
 def rules(ctx):
@@ -212,6 +246,14 @@ VARIANTS = [
     V("basis-not-normalised", "src/leaspy/utils/linalg.py", "    v_vector = u_vector / torch.norm(u_vector)", "    v_vector = u_vector", "C10.R2"),
     V("mixing-from-betas-only", "src/leaspy/models/time_reparametrized.py", "                    MatMul(\"orthonormal_basis\", \"betas\").then(torch.t)", "                    MatMul(\"betas\", \"betas\").then(torch.t)", "C10.R3"),
     V("rt-without-alpha", "src/leaspy/models/time_reparametrized.py", "        return alpha * (t - tau)\n", "        return t - tau\n", "C10.R2"),
+    V("reflection-factor-three", "src/leaspy/utils/linalg.py", "- 2 * v_vector.view(-1, 1) * v_vector", "- 3 * v_vector.view(-1, 1) * v_vector", "C10.R3"),
+    V("reflection-about-first-axis", "src/leaspy/utils/linalg.py", "    ej[strip_col] = 1.0", "    ej[0] = 1.0", "C10.R3"),
+    V("diagonal-metric-added", "src/leaspy/utils/linalg.py", "dgamma_t0 = G_metric * dgamma_t0  # component", "dgamma_t0 = G_metric + dgamma_t0  # component", "C10.R3"),
+    V("one-column-too-few", "src/leaspy/utils/linalg.py", "q_matrix[:, strip_col + 1 :]", "q_matrix[:, strip_col + 2 :]", "C10.R3"),
+    V("silent-outer-product", "src/leaspy/utils/linalg.py", "2 * v_vector.view(-1, 1) * v_vector", "2 * torch.outer(v_vector, v_vector)", None),
+    V("silent-other-reflection", "src/leaspy/utils/linalg.py", "    u_vector = dgamma_t0 - alpha * ej", "    u_vector = dgamma_t0 + alpha * ej", None),
+    V("silent-rows-of-symmetric-q", "src/leaspy/utils/linalg.py", "torch.cat((q_matrix[:, :strip_col], q_matrix[:, strip_col + 1 :]), dim=1)",
+      "torch.cat((q_matrix[:strip_col, :], q_matrix[strip_col + 1 :, :]), dim=0).t()", None),
     V("silent-put-accumulate", RM, "        state[\"log_v0\"] = state[\"log_v0\"] + mean_xi\n", "        state.put(\"log_v0\", mean_xi, accumulate=True)\n", None),
     V("silent-rename-mean", RM, "mean_xi", "m", None, count=3),
 ]
